@@ -175,16 +175,29 @@ Definition step_core (h : holder) (o : op) : ores * list call * nat * holder :=
   | _, _ => (ORbadop, [], 0, h)
   end.
 
-Definition op_payload (o : op) : list nat :=
-  match o with
-  | OTyped _ (Some p) _ _ | OHandle _ (Some p) _ _ => [p]
-  | _ => []
+(* the payload value exists (and is consumed) only when the call is actually made *)
+Definition op_payload (h : holder) (o : op) : list nat :=
+  match o, h with
+  | OTyped e (Some p) _ _, HT m =>
+      match methods_of g (tm_state m) (to_snake_case e) with
+      | gm :: _ => match gm_payload gm with Some _ => [p] | None => [] end
+      | [] => []
+      end
+  | OHandle e (Some p) _ _, HD _ =>
+      match gr_dyn g with
+      | Some gd => match event_variant gd e with
+                   | Some (_, _, Some _) => [p]
+                   | _ => []
+                   end
+      | None => []
+      end
+  | _, _ => []
   end.
 
 Definition step (h : holder) (o : op) : obs :=
   let '(r, tr, pend, h') := step_core h o in
   Build_obs r tr (filter (fun c => negb (nat_mem c (holder_ctx h'))) (holder_ctx h))
-            (op_payload o) pend h'.
+            (op_payload h o) pend h'.
 
 Fixpoint run_script (h : holder) (ops : list op) : list obs :=
   match ops with
@@ -273,3 +286,29 @@ Definition run_defn (feat : bool) (d : defn) (ops : list op) : option (list stri
   | Ok m => let g := codegen m feat in Some (map (obs_str g) (run_script g HNone ops))
   | Err _ => None
   end.
+
+(* ---------- comparison with what the implementation printed ---------- *)
+
+Fixpoint mismatches (i : nat) (model real : list string) : list nat :=
+  match model, real with
+  | [], [] => []
+  | m :: ms, r :: rs => (if String.eqb m r then [] else [i]) ++ mismatches (S i) ms rs
+  | _, _ => [i]
+  end.
+
+Definition gir_of (feat : bool) (d : defn) : option gir :=
+  match front d with Ok m => Some (codegen m feat) | Err _ => None end.
+
+(* indices of the script's lines on which model and implementation differ; [1000000] when the model
+   rejects the definition *)
+Definition chk (g : option gir) (ops : list op) (real : list string) : list nat :=
+  match g with
+  | Some g => mismatches 0 (map (obs_str g) (run_script g HNone ops)) real
+  | None => [1000000]
+  end.
+Definition model_lines (g : option gir) (ops : list op) : list string :=
+  match g with
+  | Some g => map (obs_str g) (run_script g HNone ops)
+  | None => []
+  end.
+
